@@ -38,11 +38,11 @@ def obsS (s : Sess) : String :=
     match s.lst k with
     | none => ""
     | some xs => s!" a{k}={fmtList xs} n{k}={xs.length} l{k}={fmtLast (Spec.Seq.peek xs).2}"
-def physM (s : Sess) : String :=
+def physM (s : Sess) (quiet : Bool := false) : String :=
   let parts := (List.range NSLOT).filterMap fun k =>
     (s.stk k).map fun st =>
       let a := st.v
-      s!"size{k}={a.size} cap{k}={a.capacity} blk{k}={a.buf.length} g{k}={a.grow a.capacity} buf{k}={fmtList ((List.range (min a.size a.buf.length)).map a.buf.get)}"
+      s!"size{k}={a.size} cap{k}={a.capacity} blk{k}={a.buf.length} g{k}={a.grow a.capacity} {CC.Driver.ArrayD.fmtBuf k a quiet}"
   if parts.isEmpty then "-" else
   let its := match s.it with | some (k, i) => s!" it={k}:{i.index}:{fmtBool i.lastRemoved}" | none => " it=-"
   let zs := match s.zit with | some (k, p, i) => s!" zit={k}:{p}:{i.index}:{fmtBool i.lastRemoved}" | none => " zit=-"
@@ -52,7 +52,7 @@ def invAll (s : Sess) : Bool := s.slots.all fun o => match o with | none => true
 def fin (s : Sess) (hdS hdM : String) (sweep : Bool := false) : Sess × String × String :=
   let oS := if s.sparse && !sweep then "" else obsS s
   let oM := if s.sparse && !sweep then "" else obsM s
-  (s, s!"S {hdS}{oS}", s!"M {hdM}{oM} | {physM s} | {fmtMem s.mem} | {fmtFlags (invAll s) s.mem}")
+  (s, s!"S {hdS}{oS}", s!"M {hdM}{oM} | {physM s (s.sparse && !sweep)} | {fmtMem s.mem} | {fmtFlags (invAll s) s.mem}")
 
 def Sess.dropSlot (s : Sess) (k : Nat) : Sess :=
   let s := (s.setStk k none).setLst k none
